@@ -119,8 +119,18 @@ def check_unless(ctx, rng):
     kw = dict(unit="ms", sampling=(1, "s", 0.1)) if units else {}
     pt, qt = "(" + FR.render(p, st, bf)[0] + ")", "(" + FR.render(q, st, bf)[0] + ")"
     timed = units or rng.random() < 0.7
+    one_bound = False
     if timed:
-        lhs = "out = %s unless[%s,%s] %s" % (pt, bf(a), bf(b), qt)
+        la, lb = bf(a), bf(b)
+        if units and rng.random() < 0.5:
+            one_bound = True
+            # a bound without unit takes the unit of the other bound of the interval (also in the interval the sugar derives)
+            if rng.random() < 0.5:
+                lb = str(b)
+            else:
+                la = str(a)
+            ctx.count("unless-unit-on-one-bound")
+        lhs = "out = %s unless[%s,%s] %s" % (pt, la, lb, qt)
         rhs = "out = (always[%s,%s] %s) or (%s until[%s,%s] %s)" % (bf(0), bf(b), pt, pt, bf(a), bf(b), qt)
     else:
         lhs = "out = %s unless %s" % (pt, qt)
@@ -132,7 +142,8 @@ def check_unless(ctx, rng):
     ctx.nontrivial.add((lhs, str(data)))
     if l[0] != "ok" or r[0] != "ok":
         return Violation("unless sugar: %r / %r raised %r / %r" % (lhs, rhs, l[:2], r[:2]), rep, stream="spell/unless")
-    if l[1][0] != r[1][0] or not same_vals(l[1][1], r[1][1]):
+    # (the printed specification keeps the spelling of the bounds: compared only when both sides spell them alike)
+    if (l[1][0] != r[1][0] and not (timed and one_bound)) or not same_vals(l[1][1], r[1][1]):
         return Violation("%r and %r differ: %r vs %r" % (lhs, rhs, l[1], r[1]), rep, stream="spell/unless")
     # the same sugar through the other monitors: online after pastify (bounded future only), dense-time offline parse
     if timed and not F.has_unbounded_future(p) and not F.has_unbounded_future(q):
@@ -308,7 +319,7 @@ def replay(ctx, obj):
     if obj.get("kind") == "unless":
         kw = dict(unit="ms", sampling=(1, "s", 0.1)) if obj.get("units") else {}
         l, r = stl_eval(obj["lhs"], vs, data, obj["n"], **kw), stl_eval(obj["rhs"], vs, data, obj["n"], **kw)
-        ok = l[0] == "ok" and r[0] == "ok" and l[1][0] == r[1][0] and same_vals(l[1][1], r[1][1])
+        ok = l[0] == "ok" and r[0] == "ok" and same_vals(l[1][1], r[1][1])
         if ok and "online_lhs" in obj:
             lo = impl.run_online_discrete(obj["lhs"], vs, data, obj["n"], pastify=True, **kw)
             ro = impl.run_online_discrete(obj["rhs"], vs, data, obj["n"], pastify=True, **kw)
